@@ -1,10 +1,10 @@
 package main
 
 import (
-	"runtime"
 	"fmt"
 	"go/types"
 	"math/big"
+	"runtime"
 	"sort"
 	"strings"
 	"sync"
@@ -62,6 +62,9 @@ type Violation struct {
 	Nondet  []NondetVal `json:"nondet"`
 	Reach   []string    `json:"reach"`
 	Stack   []string    `json:"stack,omitempty"`
+	// counterexamples of the same label from other paths (up to 7): the driver replays them in turn
+	// when the first one depends on values of uninterpreted functions and does not reproduce
+	Alternates []*Violation `json:"alternates,omitempty"`
 }
 
 type Sample struct {
@@ -74,11 +77,11 @@ type Sample struct {
 // Interp is the per-path interpreter state.
 type Interp struct {
 	hexOrigin map[*Term]hexOrig
-	ex   *Explorer
-	prog *ssa.Program
-	cfg  *Config
-	tb   *TB
-	sol  *Solver
+	ex        *Explorer
+	prog      *ssa.Program
+	cfg       *Config
+	tb        *TB
+	sol       *Solver
 
 	sizes        types.Sizes
 	globals      map[*ssa.Global]*Value
@@ -92,72 +95,73 @@ type Interp struct {
 	baseGlobals  map[*ssa.Global]*Value
 	sharedWrites []string
 
-	decisions []Decision
-	dpos      int
-	newWork   [][]Decision
-	nondets   []NondetRec
-	reach     []string
-	steps     int
-	depth     int
-	nsym      int
-	funcs     map[*ssa.Function]bool
-	curFrame  *frame
-	unknowns  int
-	symDecisions int
-	ghost     map[string]Value
-	usedStubs map[string]bool
+	decisions            []Decision
+	dpos                 int
+	newWork              [][]Decision
+	nondets              []NondetRec
+	reach                []string
+	steps                int
+	depth                int
+	nsym                 int
+	funcs                map[*ssa.Function]bool
+	curFrame             *frame
+	unknowns             int
+	symDecisions         int
+	ghost                map[string]Value
+	usedStubs            map[string]bool
 	capOblig, capExplore int64
-	unwindCut int
-	known map[*Term]bool
-	opaqueBuilders map[*Value]bool
-	race *raceState
-	ecst *ecState
-	hashApps []*Term
-	hashConc []hashConcRec
-	hashConcDone map[string]bool
-	hashInjDone int
-	curFn *ssa.Function
-	ivals map[*Term]ival
-	masks map[*Term]*big.Int
-	knownVal map[*Term]uint64
-	cuts map[string]bool
-	lockLog   func(name string, mu Value)
+	unwindCut            int
+	known                map[*Term]bool
+	opaqueBuilders       map[*Value]bool
+	race                 *raceState
+	ecst                 *ecState
+	hashApps             []*Term
+	hashConc             []hashConcRec
+	hashConcDone         map[string]bool
+	hashInjDone          int
+	curFn                *ssa.Function
+	ivals                map[*Term]ival
+	masks                map[*Term]*big.Int
+	knownVal             map[*Term]uint64
+	cuts                 map[string]bool
+	lockLog              func(name string, mu Value)
 }
 
 type Explorer struct {
-	violPaths  map[string]int
-	violCapHit string
-	prog    *ssa.Program
-	pkg     *ssa.Package
-	fn      *ssa.Function
-	cfg     *Config
-	mu      sync.Mutex
-	work    [][]Decision
-	active  int
-	cond    *sync.Cond
-	paths   int
-	decided int
+	sharedSamples map[string][]NondetVal
+	violPaths     map[string]int
+	violCapHit    string
+	prog          *ssa.Program
+	pkg           *ssa.Package
+	fn            *ssa.Function
+	cfg           *Config
+	mu            sync.Mutex
+	work          [][]Decision
+	active        int
+	cond          *sync.Cond
+	paths         int
+	decided       int
 
-	violations map[string]*Violation
-	reached    map[string]int
-	samples    []Sample
-	endWitness *Sample
-	funcs      map[string]bool
-	incomplete []string
-	aborts     []string
-	unknowns   int
-	queries    int
-	nsat       int
-	nunsat     int
-	solverTime time.Duration
-	maxUnwind  int
-	steps      int64
-	pathEnds   map[string]int
-	shared     map[string]int
-	assumes    map[string]bool
-	cuts       map[string]bool
+	violations   map[string]*Violation
+	reached      map[string]int
+	samples      []Sample
+	endWitness   *Sample
+	funcs        map[string]bool
+	incomplete   []string
+	aborts       []string
+	unknowns     int
+	queries      int
+	nsat         int
+	nunsat       int
+	solverTime   time.Duration
+	maxUnwind    int
+	steps        int64
+	pathEnds     map[string]int
+	shared       map[string]int
+	assumes      map[string]bool
+	cuts         map[string]bool
 	symDecisions int
-	raceQueries int
+	raceQueries  int
 }
 
 func NewExplorer(prog *ssa.Program, pkg *ssa.Package, fn *ssa.Function, cfg *Config) *Explorer {
@@ -341,6 +345,21 @@ func (ex *Explorer) runPath(sol *Solver, base *baseState, prefix []Decision) (di
 			}
 		}()
 		in.callSSA(nil, ex.fn, nil, nil)
+		// a witness input for each kind of write to package-level state (for native confirmation)
+		for _, w := range in.sharedWrites {
+			ex.mu.Lock()
+			_, have := ex.sharedSamples[w]
+			ex.mu.Unlock()
+			if !have && in.sol.Check() == Sat {
+				nd := in.modelNondets()
+				ex.mu.Lock()
+				if ex.sharedSamples == nil {
+					ex.sharedSamples = map[string][]NondetVal{}
+				}
+				ex.sharedSamples[w] = nd
+				ex.mu.Unlock()
+			}
+		}
 		// normal end of harness: end witness + sample
 		in.pathSample(end)
 	}()
@@ -648,7 +667,10 @@ func (in *Interp) obligation(cond *Term, label string, fault bool) {
 	}
 	ex := in.ex
 	ex.mu.Lock()
-	_, already := ex.violations[label]
+	first, already := ex.violations[label]
+	if already && len(first.Alternates) < 7 {
+		already = false
+	}
 	ex.mu.Unlock()
 	tb := in.tb
 	if !already || !in.cfg.OnePerLab {
@@ -660,8 +682,10 @@ func (in *Interp) obligation(cond *Term, label string, fault bool) {
 			v := &Violation{Harness: in.cfg.Harness, Label: label, Fault: fault, Nondet: in.modelNondets(), Reach: append([]string(nil), in.reach...)}
 			in.sol.Pop()
 			ex.mu.Lock()
-			if _, ok := ex.violations[label]; !ok {
+			if f, ok := ex.violations[label]; !ok {
 				ex.violations[label] = v
+			} else if len(f.Alternates) < 7 {
+				f.Alternates = append(f.Alternates, v)
 			}
 			ex.mu.Unlock()
 		} else {
